@@ -310,7 +310,15 @@ func (c *FnCtx) callFunc(st *State, fn *types.Func, sig *types.Signature, recv *
 				continue
 			}
 			sc := c.specScopeAt(st)
-			for i, an := range cp.Props {
+			names := cp.Props
+			if len(names) > 0 && names[0] == "self" {
+				// `callpre M(self, a, b): e`: self names the receiver of the call
+				if recv != nil {
+					sc.vars["self"] = *recv
+				}
+				names = names[1:]
+			}
+			for i, an := range names {
 				if an != "" && i < len(args) {
 					sc.vars[an] = args[i]
 				}
